@@ -375,6 +375,23 @@ NamespacesHandler::copyNamespaceAliases(const NamespacesHandler&    parentNamesp
 
 
 
+void
+NamespacesHandler::overrideNamespaceAliases(const NamespacesHandler&    theSource)
+{
+    const NamespaceAliasesMapType::const_iterator   theEnd =
+            theSource.m_namespaceAliases.end();
+
+    NamespaceAliasesMapType::const_iterator     i =
+            theSource.m_namespaceAliases.begin();
+
+    for (; i != theEnd; ++i)
+    {
+        m_namespaceAliases[(*i).first] = (*i).second;
+    }
+}
+
+
+
 const XalanDOMString*
 NamespacesHandler::getNamespaceAlias(const XalanDOMString&      theStylesheetNamespace) const
 {
